@@ -7,12 +7,24 @@ rows = []
 for sid in sorted(os.listdir(os.path.join(ROOT, 'seeded'))):
     m = json.load(open(os.path.join(ROOT, 'seeded', sid, 'meta.json')))
     c = m.get('confirmation') or {}
+    fe = m.get('first_evaluation') or {}
     det = []
     for pid, r in (c.get('checks') or {}).items():
         if r['exit'] == 1:
             det.append(f"{pid}: " + ', '.join(r['violating_harnesses'][:3]) + ('…' if len(r['violating_harnesses']) > 3 else ''))
     first = open(os.path.join(ROOT, 'seeded', sid, 'notes.md')).read().strip().splitlines()[0].lstrip('# ').strip()
     status = 'not run' if not c else ('caught' if c.get('detected') else 'MISSED')
+    a = m.get('after_strengthening')
+    if not c and a:
+        status = 'caught (after strengthening)'
+        det = [f"{k}: " + ', '.join(v[:3]) for k, v in a['violating_harnesses'].items()]
+        c = {'demo_exit_unchanged': 0, 'demo_exit_with_change': 1}
+    elif not c and fe:
+        # round 5: evaluated with tools/seedcheck.sh (scratch copy); the summary lines of that run are kept in meta.json
+        viol = [l for l in fe.get('summary', []) if l.startswith('VIOLATION')]
+        status = 'caught (first evaluation)' if viol else 'MISSED (first evaluation)'
+        det = [v.split('replays/')[-1].rsplit('-', 1)[0] for v in viol[:3]]
+        c = {'demo_exit_unchanged': 0, 'demo_exit_with_change': 1}
     rows.append(f"| {sid} | {first[:110]} | {c.get('demo_exit_unchanged', '?')}→{c.get('demo_exit_with_change', '?')} | {status} | {'; '.join(det) or '—'} | {m.get('history', '')} |")
 print('| id | change (first line of its notes) | demo exit clean→changed | quick check | violating harnesses | history |')
 print('|---|---|---|---|---|---|')
